@@ -14,7 +14,7 @@ from harness.c09 import r_tok
 from harness.common import tok_str
 from vk.core import Case, Ctx
 
-GEN_MODULES: List[str] = ["C09Gena", "C10Notify"]
+GEN_MODULES: List[str] = ["C09Gena", "C10Notify", "C08Types"]
 MANIFEST = {
     "design_ref": "§5 C11",
     "text": ("Lean theorems over the event-driven model (subscribe started / NOTIFY arrived / SUBSCRIBE response arrived; "
@@ -41,7 +41,7 @@ RULE = ("schedules over {async_subscribe(svc) started, NOTIFY arrives, SUBSCRIBE
 EXHAUSTIVE = {"quick": False, "thorough": True}
 ASSUMPTIONS = [
     "handle_notify and the tail of async_subscribe run without suspending (no await that yields inside them)",
-    "one subscribe call per service, SIDs granted at most once (the property speaks of the SUBSCRIBE that creates the subscription)",
+    "one subscribe call at a time per service, none after a grant (a failed call may be repeated); SIDs granted at most once",
     "property sets are well-formed XML naming each variable at most once; ASCII values",
 ]
 TRUSTED = ["C11: asyncio FIFO scheduling and the parked-future requester stand for the network"]
@@ -87,10 +87,16 @@ async def settle():
 
 async def _run(recipe, lines, tags):
     svc_vars = recipe.get("vars", V2)
-    rq, eh, svcs = await c09env.make_env(svc_vars)
-    c09env.install_clock()
     lines.append(f"cfg {tok_str(c09env.HOST)} {tok_str(c09env.CALLBACK)}")
+    lines.extend(c09env.fdecl_lines(svc_vars, texts_of(recipe)))
     lines.extend(c09env.decl_lines(svc_vars))
+    try:
+        rq, eh, svcs = await c09env.make_env(svc_vars)
+    except Exception as e:  # noqa: BLE001
+        lines.append("factoryfail " + c09env.exc_tok(e))
+        tags.add("factoryfail")
+        return False
+    c09env.install_clock()
     cb_count = [0] * len(svcs)
     for i, s_ in enumerate(svcs):
         def _cb(svc, vs, i_=i):
@@ -189,6 +195,16 @@ async def _run(recipe, lines, tags):
     return nontrivial
 
 
+def texts_of(recipe):
+    out = []
+    for op in recipe["ops"]:
+        if op[0] == "notify" and op[4] != "#":
+            for el in op[4]:
+                for ns, name, text in el["kids"]:
+                    out.append((name, text))
+    return out
+
+
 def run_recipe(ctx: Ctx, recipe: Dict[str, Any], cid: str) -> Case:
     lines: List[str] = []
     tags = set()
@@ -253,14 +269,30 @@ def exhaustive(ctx: Ctx):
         ns = [notify(sid, carry(j, sub)) for j, (sid, sub) in enumerate(choice)]
         for seq in interleavings(ns, grant(0, S0), ["respond", 1, ["resp", 500, None, None]]):
             out.append({"ops": seq})
+    # the SUBSCRIBE fails (refused / unreachable / no SID) with NOTIFYs backlogged, then is repeated and granted the same SID:
+    # all positions of two NOTIFYs around {failure, second start, grant}
+    for fail in (["resp", 500, None, None], ["connerr"], ["resp", 200, None, None]):
+        for subs in itertools.product(SUBSETS, repeat=2):
+            ns = [notify(S0, carry(j, sub)) for j, sub in enumerate(subs)]
+            ctl = [["respond", 0, fail], ["start", 0, 600], grant(0, S0)]
+            for pos in itertools.combinations(range(5), 2):     # where the two NOTIFYs sit among the 5 events
+                seq, ci, ni = [], 0, 0
+                for k in range(5):
+                    if k in pos:
+                        seq.append(ns[ni]); ni += 1
+                    else:
+                        seq.append(ctl[ci]); ci += 1
+                out.append({"ops": [["start", 0, 1800]] + seq})
     return out
 
 
 NAMES = ["A", "B", "C", "D", "Vol"]
 KINDS = [{"type": "ui2", "min": 0, "max": 100}, {"type": "i4"}, {"type": "boolean"}, {"type": "string"},
-         {"type": "string", "allowed": ["x", "y"]}]
+         {"type": "string", "allowed": ["x", "y"]}, {"type": "dateTime.tz"}, {"type": "r8", "min": "0.5"}]
 TEXTS = {"ui2": ["1", "50", "100", "7", "101", "abc", ""], "i4": ["-3", "0", "12", " 4 ", "zz"],
-         "boolean": ["1", "0", "true", "no", "?"], "string": ["x", "y", "hello", "", "z"]}
+         "boolean": ["1", "0", "true", "no", "?"], "string": ["x", "y", "hello", "", "z"],
+         "dateTime.tz": ["2021-03-04T05:06:07-05:00", "2021-03-04T05:06:07+0100", "2021-03-04T05:06:07Z", "2021-03-04T05:06:07", "x"],
+         "r8": ["1.5", "0.25", "nan", "abc", " 2 "]}
 
 
 def rand_recipe(rng):
@@ -295,14 +327,19 @@ def rand_recipe(rng):
         kids = [[rng.choice(["", "", "urn:q"]), d["name"], rng.choice(TEXTS[d["type"]])] for d in pool[:rng.randrange(0, len(pool) + 1)]]
         if rng.randrange(6) == 0:
             kids.append(["", "Zed", "1"])
-        if rng.randrange(15) == 0 and kids:   # a variable named twice: outside the domain (judging stops there)
+        if rng.randrange(15) == 0 and kids:   # a variable named twice (same tag: the last text counts)
             kids.append(list(kids[0]))
         nt = NT_OK if rng.randrange(10) else rng.choice([None, "x"])
         nts = NTS_OK if rng.randrange(10) else rng.choice([None, "x"])
-        events.append(notify(sid if rng.randrange(12) else None, kids, nt, nts, rng.choice(["", "\n", "\0"])))
+        if rng.randrange(40) == 0:
+            events.append(["notify", nt, nts, sid, "#", ""])      # not XML: compared, judging stops
+        else:
+            events.append(notify(sid if rng.randrange(12) else None, kids, nt, nts, rng.choice(["", "\n", "\0"])))
     rng.shuffle(events)
-    if rng.randrange(10) == 0:
-        events.insert(rng.randrange(len(events) + 1), ["start", rng.randrange(nsvc), 60])   # a second start: outside the domain
+    if rng.randrange(6) == 0:   # a repeated subscribe: in the domain after a failure, outside it after a grant / while one is parked
+        i = rng.randrange(nsvc)
+        events.insert(rng.randrange(len(events) + 1), ["start", i, 60])
+        events.insert(rng.randrange(len(events) + 1), ["respond", i, ["resp", 200, rng.choice(sids), None]])
     return {"vars": svc_vars, "ops": ops + events}
 
 
@@ -315,6 +352,16 @@ CORPUS = [
     {"ops": [["start", 0, 1800], notify(S0, [["", "A", "1"]]), ["respond", 0, ["resp", 500, None, None]], notify(S0, [["", "A", "2"]])]},
     {"ops": [["start", 0, 1800], notify(S0, [["", "A", "1"]]), ["respond", 0, ["connerr"]], ["start", 1, 5], notify(S0, [["", "A", "2"]]),
              ["respond", 1, ["resp", 200, None, None]]]},
+    # round 2: the SUBSCRIBE fails after NOTIFYs were backlogged; the backlog entry stays (keyed by SID) and a LATER subscription
+    # that is granted the same SID replays it: by the text those NOTIFYs are then early NOTIFYs of the granted SID (judged so)
+    {"ops": [["start", 0, 1800], notify(S0, [["", "A", "1"], ["", "B", "x"]]), ["respond", 0, ["resp", 500, None, None]],
+             notify(S0, [["", "A", "2"]]), ["start", 0, 1800], notify(S0, [["", "C", "1"]]), grant(0, S0), notify(S0, [["", "A", "3"]])]},
+    {"ops": [["start", 0, 1800], notify(S0, [["", "A", "7"]]), ["respond", 0, ["connerr"]], ["start", 1, 1800], grant(1, S0),
+             ["start", 0, 300], ["respond", 0, ["resp", 200, S1, None]]]},
+    # a malformed early NOTIFY (not XML): answered 200 and stored; the replay raises ParseError out of async_subscribe AFTER the
+    # SID was registered, the backlog entry stays (compared with the model; outside the property's domain, not judged)
+    {"ops": [["start", 0, 1800], notify(S0, [["", "A", "1"]]), ["notify", NT_OK, NTS_OK, S0, "#", ""], notify(S0, [["", "A", "2"]]),
+             grant(0, S0), notify(S0, [["", "B", "live"]]), ["notify", NT_OK, NTS_OK, S0, "#", ""]]},
     # early NOTIFY with bad headers is not stored
     {"ops": [["start", 0, 1800], notify(S0, [["", "A", "1"]], nt=None), notify(S0, [["", "A", "2"]], nts="x"), notify(None, [["", "A", "3"]]), grant(0, S0)]},
 ]
